@@ -19,6 +19,10 @@ pub struct ProbeEv {
     pub ts: Option<i64>,
     pub v: i64,
     pub m: u64,
+    /// metadata word the element carried when it arrived (before this probe stamped it)
+    pub m_in: u64,
+    /// number of FlushAndRestart this probe had seen before the element
+    pub iter: u32,
     pub pad: usize,
     /// digest of the element as it will be seen on a link (only for stampers)
     pub digest: u64,
@@ -64,7 +68,8 @@ pub struct Workers {
 pub struct DelaySpec {
     pub seed: u64,
     /// Slow selectors: (kind, a, b, max_us). kind 0: all links into block a coming from block b;
-    /// kind 1: all sends of replica with global hash a; kind 2: every k-th message everywhere.
+    /// kind 1: all sends of replica with global hash a; kind 2: every k-th message everywhere;
+    /// kind 3: every message delivered to host a % 3.
     pub slow: Vec<(u8, u64, u64, u32)>,
 }
 
@@ -78,7 +83,9 @@ impl DelaySpec {
                     mix64(from.block_id * 1_000_003 + from.host_id * 1009 + from.replica_id) % 7
                         == a % 7
                 }
-                _ => n % (a.max(1)) == 0,
+                2 => n % (a.max(1)) == 0,
+                // everything delivered to one host
+                _ => ep.to.host_id == a % 3,
             };
             if hit {
                 let h = mix64(
